@@ -6,6 +6,7 @@ import SchedVerif.Driver.Parse
 import SchedVerif.Spec.Occ
 import SchedVerif.Spec.Select
 import SchedVerif.Spec.Union
+import SchedVerif.Spec.Render
 namespace SV.Drv
 open SV
 
@@ -55,6 +56,12 @@ def specP : P String := do
       -- a timing list is accepted iff its entries denote pairwise different recurring instants
       let tms ← listOf timingP; let accepted ← bool
       pure (okB (uniqueB tms == accepted))
+  | "cutoff" => do
+      let w ← nat; let tail ← bool; let sv ← listOf nat; let out ← listOf nat
+      pure (okB (cutoffSpecB sv w tail out))
+  | "rowlen" => do
+      let len ← nat; let widths ← listOf nat
+      pure (okB (len == widths.sum + (widths.length - 1) + 1))
   | "cadence" => do
       -- the k-th execution (k = 1, 2, …) of a cyclic job belongs to s + k·T (delay) / s + (k-1)·T (no delay)
       let delay ← bool; let sv ← int; let T ← int; let k ← int; let due ← int
@@ -88,6 +95,22 @@ def selectP : P String := do
 def selectpP : P String := do
   let me ← nat; let l ← listOf keyPrio
   pure ("B " ++ joinNat ((selectBatch me l).map (·.1))).trimAsciiEnd.toString
+
+/-- `cutoff <w> <tail> <n> <cp>*` : the model's `str_cutoff` -/
+def cutoffP : P String := do
+  let w ← nat; let tail ← bool; let sv ← listOf nat
+  match strCutoff sv w tail with
+  | none => pure "C E"
+  | some o => pure ("C " ++ joinNat o).trimAsciiEnd.toString
+
+def cellP : P Cell := do
+  let a ← nat; let w ← nat; let t ← listOf nat
+  pure { align := if a == 0 then .left else .right, width := w, text := t }
+
+/-- `row <ncells> (<align> <width> <n> <cp>*)*` : the model's table row -/
+def rowP : P String := do
+  let cells ← listOf cellP
+  pure ("W " ++ joinNat (row cells)).trimAsciiEnd.toString
 
 def selectCmd (p : P String) (toks : List String) : String :=
   match runP p toks with
